@@ -23,8 +23,9 @@ pub struct RustDocument {
     pub(crate) soap_ports: Vec<Rc<SoapPort>>,
     pub(crate) soap_bindings: Vec<Rc<SoapBinding>>,
     pub(crate) soap_services: Vec<SoapService>,
-    /// names currently being resolved through the XML tree; guards against reference cycles
-    pub(crate) resolving: Vec<String>,
+    /// components (name, namespace, symbol space) currently being resolved through the XML tree;
+    /// guards against reference cycles
+    pub(crate) resolving: Vec<(String, Option<String>, Option<ComponentKind>)>,
     /// the default namespace (`xmlns="..."`) in scope: what an unprefixed reference denotes
     pub(crate) default_namespace: Option<Rc<Namespace>>,
     /// components the importing documents have read so far (e.g. from a file that this file imports
@@ -244,11 +245,13 @@ impl RustDocument {
         }
 
         // a definition that (directly or indirectly) refers to itself would be looked up forever
-        if self.resolving.iter().any(|n| n == xml_name) {
+        // (a type and a global element may share a name: looking one up while reading the other is no cycle)
+        let key = (xml_name.to_string(), namespace.map(|ns| ns.namespace.clone()), kind);
+        if self.resolving.contains(&key) {
             return None;
         }
 
-        self.resolving.push(xml_name.to_string());
+        self.resolving.push(key);
         let alt_node = try_to_find_node_by_xml_name_in_xml_doc(start_node, xml_name, namespace, kind, self);
         self.resolving.pop();
         let alt_node: Rc<RustNode> = alt_node.ok()?.into();
